@@ -140,10 +140,36 @@ theorem ctor_objects_same_rules {Obj : Type} (mro : Obj → List PubClass) (kind
     rw [dispatch_subclass (mro o) (kind o) (hsub o ho).1 (hsub o ho).2]
   rw [this, ctor_same_rules]
 
+/-- what the answer `only` of the driver entry `c06.dispatch` means: the hypothesis of `dispatch_subclass` /
+`ctor_objects_same_rules` for one object -/
+theorem only_decides (mro : List PubClass) (c : PubClass) :
+    onlyB mro c = true ↔ (mro ≠ [] ∧ ∀ x ∈ mro, x = c) := by
+  cases mro <;> simp [onlyB]
+
+/-- `ctor_objects_same_rules` from the decider (evaluated by `c06.dispatch` on the bases of the REAL class of
+every element object of every case, for the public class the case means the object to be) -/
+theorem ctor_objects_same_rules_decided {Obj : Type} (mro : Obj → List PubClass) (kind : Obj → PubClass)
+    (read : Obj → PubClass → Elem) (os : List Obj) (base : Option FormatRec)
+    (hsub : ∀ o ∈ os, onlyB (mro o) (kind o) = true) :
+    ctor (elemsOf mro read os) base =
+      match seqAdd (Builder.empty base) (os.map (fun o => read o (kind o))) with
+      | (b, none) => .ok (format b)
+      | (_, some e) => .error e :=
+  ctor_objects_same_rules mro kind read os base (fun o ho => (only_decides _ _).mp (hsub o ho))
+
 /-- non-vacuity: a direct subclass, a subclass with a mixin (the mixin is no public class and does
 not occur), an object of a foreign class, and a class deriving from two public classes -/
 example : dispatch [.option] = some .option ∧ dispatch [.argument, .argument] = some .argument ∧
     dispatch [] = none ∧ dispatch [.option, .commandOption] = some .commandOption := by decide
+
+/-- non-vacuity of `dispatch_mem`, `dispatch_first`, `dispatch_subclass` (hypotheses discharged): a class deriving
+from `Option` (twice in the bases: a diamond) is added as an option and derives from no class tested earlier; the
+decider accepts it and rejects a foreign class and a class deriving from two public classes -/
+example : PubClass.option ∈ [PubClass.option, .option] := dispatch_mem _ _ (by decide)
+example : PubClass.commandOption ∉ [PubClass.option, .option] := dispatch_first _ .option _ (by decide) (by decide)
+example : dispatch [.option, .option] = some .option := dispatch_subclass _ _ (by decide) (by decide)
+example : onlyB [.option, .option] .option = true ∧ onlyB [] .option = false ∧
+    onlyB [.option, .commandOption] .commandOption = false := by decide
 
 /-- ... hence a format constructed directly from elements obeys the same rules. -/
 theorem ctor_inv (es : List Elem) (base : Option FormatRec) (hbase : InvBase base)
@@ -408,6 +434,20 @@ example : (match ctorChain exLevels none with
       (exOps.foldl (fun (acc : Builder × List (Option Err)) op =>
           let r := step acc.1 op; (r.1, acc.2 ++ [r.2])) (Builder.empty base, [])).2)
     = [some .cannotAddOption, some .cannotAddOption, none, some .cannotAddOption, none] := by decide
+
+/-- `ctor_objects_same_rules_decided` applied: object 0 is an instance of a subclass of `Option` (read as `--baz`),
+object 1 of a mixin subclass of `Argument` (read as `dst`); the decider holds for both, and the constructor on the
+two objects is the fold of `add_option(--baz)`, `add_argument(dst)` -/
+example :
+    ctor (elemsOf (fun o : Nat => if o = 0 then [.option] else [.argument, .argument])
+        (fun o c => if c = .option then .opt { oBaz with tag := o } else .arg { aOpt with tag := o }) [0, 1]) none =
+      (match seqAdd (Builder.empty none) [.opt { oBaz with tag := 0 }, .arg { aOpt with tag := 1 }] with
+       | (b, none) => .ok (format b)
+       | (_, some e) => .error e) :=
+  ctor_objects_same_rules_decided (fun o : Nat => if o = 0 then [.option] else [.argument, .argument])
+    (fun o => if o = 0 then .option else .argument)
+    (fun o c => if c = .option then .opt { oBaz with tag := o } else .arg { aOpt with tag := o }) [0, 1] none
+    (by decide)
 
 example : ∃ f, ctor [.opt oBaz, .foreign, .arg aOpt] none = .ok f ∧ InvF f :=
   ⟨_, rfl, ctor_inv_decided [] [.opt oBaz, .foreign, .arg aOpt] (by decide) (by decide) none rfl _ rfl⟩
